@@ -117,6 +117,11 @@ func parseActs(tok string) (acts []dact, ph bool, ok bool) {
 			d.a = hexArg(1)
 		case "aw": // c.AbortWithStatus(code)
 			d.n = intArg(1)
+		case "rd": // c.Render(200, view, nil) through the router's Renderer: view 0 renders, view 1 fails half way
+			d.n = intArg(1)
+			if d.n != 0 && d.n != 1 {
+				bad = true
+			}
 		case "jp": // c.JSONP(200, "cb", v): v encodes fine (0) or its MarshalJSON panics (1)
 			d.n = intArg(1)
 			if d.n != 0 && d.n != 1 {
@@ -563,6 +568,8 @@ func (cs *dcase) runActs(c *rux.Context, acts []dact, pos string) {
 			c.Resp.WriteHeader(a.n)
 		case "aw":
 			c.AbortWithStatus(a.n)
+		case "rd":
+			_ = c.Render(200, []string{"ok", "fail"}[a.n], nil)
 		case "jp":
 			if a.n == 0 {
 				c.JSONP(200, "cb", struct {
@@ -603,6 +610,19 @@ func (cs *dcase) runActs(c *rux.Context, acts []dact, pos string) {
 }
 
 type dctxKey struct{}
+
+// the template renderer of the routers of this engine: the view "ok" renders, every other view writes a part of its
+// output and fails
+type dispRenderer struct{}
+
+func (dispRenderer) Render(w io.Writer, name string, _ any, _ *rux.Context) error {
+	if name == "ok" {
+		_, _ = io.WriteString(w, "<p>ok</p>")
+		return nil
+	}
+	_, _ = io.WriteString(w, "<h1>part")
+	return errors.New("view failed")
+}
 
 // a value whose MarshalJSON panics (a handler that dies while a response helper is encoding)
 type dispPanicJSON struct{ f func() }
@@ -650,7 +670,7 @@ func dxJSONPStream(r *Rand, ops []string) ([]string, bool) {
 				}
 			}
 			if !skip && r.Chance(1, 3) {
-				toks = insertAt(toks, r.Intn(len(toks)+1), "jp:0")
+				toks = insertAt(toks, r.Intn(len(toks)+1), r.Pick([]string{"jp:0", "jp:0", "rd:0", "rd:1", "rd:1"}))
 			}
 			if len(toks) > 0 {
 				f[j] = strings.Join(toks, ",")
@@ -750,6 +770,7 @@ func (cs *dcase) config(f []string) string {
 			cs.mna = true
 		}
 		cs.router = rux.New(opts...)
+		cs.router.Renderer = dispRenderer{}
 		return "ok"
 	case "use":
 		if len(f) != 2 || cs.router == nil {
@@ -1786,5 +1807,9 @@ func (ctxEngine) Gen(r *Rand, tier string) Case {
 		tag += " sethandlers"
 	}
 	tag += dnCtxStreams(g, c, &serves)
-	return Case{Ops: append(c.ops(), serves...), Tag: tag}
+	ops := append(c.ops(), serves...)
+	if o2, ok := dxJSONPStream(r, ops); ok { // response helpers (JSONP, Render) as handler actions; drawn last
+		ops, tag = o2, tag+"+helpers"
+	}
+	return Case{Ops: ops, Tag: tag}
 }
